@@ -255,7 +255,7 @@ fn collections(ctx: &mut Ctx) {
     }
     if ctx.mine() {
         // long and nested collections, with the one bad element far from both ends
-        for len in [7usize, 33, 100, 1000] {
+        for len in [7usize, 33, 100, 1000, 5000] {
             for bad_at in [None, Some(len / 2), Some(len - 1)] {
                 ctx.count();
                 ctx.hit("collections:long");
@@ -274,6 +274,28 @@ fn collections(ctx: &mut Ctx) {
                     (other, _) => bad(ctx, "HashMap<String,u16>", "collection", format!("len {len}, bad at {bad_at:?}: {}", clip(format!("{other:?}"), 200)), &Value::Int(len as i128)),
                 }
             }
+        }
+        // i128 values with special bit patterns through every integer extraction
+        for n in [1i128 << 64, (1i128 << 64) - 1, 0x1_0000_0000, 0xFFFF_FFFF_0000_0000u64 as i128, -(1i128 << 64), (1i128 << 100) + (1 << 32), 1 << 16, 1 << 8, i128::MAX - ((1 << 64) - 1)] {
+            ctx.count();
+            let v = Value::Int(n);
+            let fits = |lo: i128, hi: i128| n >= lo && n <= hi;
+            let ok = matches!(got(guard(|| u8::try_from(v.clone()))), Got::Ok(_)) == fits(0, 255)
+                && matches!(got(guard(|| i16::try_from(v.clone()))), Got::Ok(_)) == fits(i16::MIN as i128, i16::MAX as i128)
+                && matches!(got(guard(|| u32::try_from(v.clone()))), Got::Ok(_)) == fits(0, u32::MAX as i128)
+                && matches!(got(guard(|| i64::try_from(v.clone()))), Got::Ok(_)) == fits(i64::MIN as i128, i64::MAX as i128)
+                && matches!(got(guard(|| u64::try_from(v.clone()))), Got::Ok(_)) == fits(0, u64::MAX as i128)
+                && matches!(got(guard(|| u128::try_from(v.clone()))), Got::Ok(_)) == (n >= 0);
+            if !ok {
+                bad(ctx, "integer", "bit-pattern", format!("{n:#x}"), &v);
+            }
+        }
+        // two hops: Vec<HashMap<String, Vec<u8>>>
+        let two: Vec<HashMap<String, Vec<u8>>> = vec![HashMap::from([("a".to_string(), vec![1u8, 2]), ("b".to_string(), vec![])]), HashMap::new()];
+        ctx.count();
+        match got(guard(|| Vec::<HashMap<String, Vec<u8>>>::try_from(Value::from(two.clone())))) {
+            Got::Ok(x) if x == two => ctx.hit("roundtrip:Vec<HashMap<String,Vec<u8>>>"),
+            other => bad(ctx, "Vec<HashMap<String,Vec<u8>>>", "roundtrip", clip(format!("{other:?}"), 200), &Value::None),
         }
         let nested: Vec<Vec<u8>> = vec![vec![1, 2, 3], vec![], vec![255; 9]];
         ctx.count();
